@@ -160,6 +160,10 @@ def idStep (ts : List String) : Option String :=
     | some f =>
       -- `String()`, `Base2()`, `Base36()`: `strconv.FormatInt` with the bases found in the source
       some s!"{formatInt f baseOfString} {formatInt f baseOfBase2} {formatInt f baseOfBase36}"
+  | ["millis", d] =>                      -- `time.Duration(d).Milliseconds()`
+    match d.toInt? with
+    | none => some "bad-op"
+    | some d => if d < -(2^63 : Int) ∨ d ≥ (2^63 : Int) then some "bad-op" else some (toString (millis d))
   | ["newgen", rb] =>
     match rb.toInt? with
     | none => some "bad-op"
